@@ -1,6 +1,6 @@
 (* Executable comparison for C18 case files. *)
 From Coq Require Import List String Ascii NArith Bool Arith.
-From DM Require Import Base.Util Base.Str Model.BundleCheck Model.Mount Model.MutFs.
+From DM Require Import Base.Util Base.Str Model.BundleCheck Model.Mount Model.MutFs Model.Inode Model.InodeCheck.
 Import ListNotations.
 Open Scope list_scope.
 
@@ -67,6 +67,12 @@ Definition spec_ok (c : ucase) : bool :=
 
 Definition report (cs : list ucase) : list N * list N :=
   (indices (fun c => case_mismatch c && negb (mu_crashed c)) cs, indices (fun c => negb (spec_ok c)) cs).
+
+(* programs on the mount, and histories of its inode generator alone *)
+Inductive c18case := UCase (c : ucase) | ICase (c : icase).
+Definition report18 (cs : list c18case) : list N * list N :=
+  (indices (fun x => match x with UCase c => case_mismatch c && negb (mu_crashed c) | ICase c => icase_mismatch c end) cs,
+   indices (fun x => match x with UCase c => negb (spec_ok c) | ICase c => negb (icase_spec_ok c) end) cs).
 
 (* diagnosis: the first step where the reference tree answers differently *)
 Fixpoint first_bad (i : nat) (steps : list (fsop * fres)) (t : list (list string * node)) : option (nat * fsop * fres * fres) :=
